@@ -233,6 +233,9 @@ int main(int argc, char **argv) {
         } else if (!strcmp(op,"inq_format")) { int f=-1; err=ncmpi_inq_format(ncid,&f); fprintf(out," %d %d",err,f);
         } else if (!strcmp(op,"inq_varoffset")) { MPI_Offset o=-1; int v=varid_of(A(1)); err=ncmpi_inq_varoffset(ncid,v,&o); fprintf(out," %d %lld",err,(long long)o);
         } else if (!strcmp(op,"inq_header")) { MPI_Offset a=-1,b=-1,c=-1; err=ncmpi_inq_header_size(ncid,&a); ncmpi_inq_header_extent(ncid,&b); ncmpi_inq_recsize(ncid,&c); fprintf(out," %d %lld %lld %lld",err,(long long)a,(long long)b,(long long)c);
+        } else if (!strcmp(op,"inq_info")) { /* inq_info key1 key2 ... : effective hint values the library reports */
+            MPI_Info info; err=ncmpi_inq_file_info(ncid,&info); fprintf(out," %d",err);
+            if (!err) { for (int q=1;q<nt;q++){ char val[MPI_MAX_INFO_VAL+1]; int flag=0; MPI_Info_get(info,A(q),MPI_MAX_INFO_VAL,val,&flag); fprintf(out," %s=%s",A(q),flag?val:"<unset>"); } MPI_Info_free(&info); }
         } else if (!strcmp(op,"inq_malloc")) { MPI_Offset m=-1; err=ncmpi_inq_malloc_size(&m); fprintf(out," %d %lld",err,(long long)m);
         } else if (!strcmp(op,"set_fill")) { int old=-1; err=ncmpi_set_fill(ncid,atoi(A(1))?NC_FILL:NC_NOFILL,&old); fprintf(out," %d",err);
         } else if (!strcmp(op,"def_var_fill")) { int v=varid_of(A(1)); int nf=atoi(A(2)); nc_type xt=NC_INT; ncmpi_inq_vartype(ncid,v,&xt);
@@ -275,7 +278,7 @@ int main(int argc, char **argv) {
             /* explicit element count override: token "n=<k>" right before ':' (for error-case requests) */
             long long vals_n=0; int colon=-1; for(int k=a;k<nt;k++) if(!strcmp(tok[k],":")){colon=k;break;}
             if (mt<0) { fprintf(out," -999\n"); continue; }
-            int typed = !strcmp(lay,"t"); int k = lay[0]=='v' ? atoi(lay+1) : 1; if (k<1) k=1;
+            int typed = !strcmp(lay,"t"); int k = (lay[0]=='v'||lay[0]=='r') ? atoi(lay+1) : 1; if (k<1) k=1; int resized = lay[0]=='r';
             size_t rawlen; unsigned char *raw=mkbuf(nelems,k,mt,&rawlen); unsigned char *data=raw+GUARD;
             if (w && colon>=0) { vals_n=nt-colon-1; for (size_t e=0;e<nelems && (long long)e<vals_n;e++) set_elem(data,mt,e*k,atoll(tok[colon+1+e])); }
             /* varm with imap: the user buffer is addressed through imap; the script gives imap in elements and the
@@ -286,7 +289,9 @@ int main(int argc, char **argv) {
                     if (w && colon>=0) { size_t idx[MAXDIM]={0}; for(size_t e=0;e<nelems;e++){ size_t off=0; for(int d=0;d<nd;d++) off+=idx[d]*im[d]; if ((long long)e<vals_n) set_elem(data,mt,off,atoll(tok[colon+1+e])); for(int d=nd-1;d>=0;d--){ if(++idx[d]<(size_t)ct[d])break; idx[d]=0;} } } } }
             unsigned char *orig=malloc(rawlen); memcpy(orig,raw,rawlen);
             MPI_Datatype bt=mt_mpi(mt); MPI_Offset bc=nelems; int hasdt=0; MPI_Datatype dt=MPI_DATATYPE_NULL;
-            if (k>1 && !imapspan) { MPI_Type_vector((int)nelems,1,k,bt,&dt); MPI_Type_commit(&dt); hasdt=1; bt=dt; bc=1; }
+            if (k>1 && !imapspan && !resized) { MPI_Type_vector((int)nelems,1,k,bt,&dt); MPI_Type_commit(&dt); hasdt=1; bt=dt; bc=1; }
+            if (k>1 && !imapspan && resized) { /* one field of an array of structs: resized(base, lb 0, extent k*size), bufcount = nelems */
+                MPI_Type_create_resized(bt,0,(MPI_Aint)(k*mt_size[mt]),&dt); MPI_Type_commit(&dt); hasdt=1; bt=dt; bc=nelems; }
             if (imapspan) { bc = imapspan; }
             int reqid=NC_REQ_NULL;
             const MPI_Offset *pst=st,*pct=ct,*psd=sd,*pim=im;
